@@ -6,6 +6,7 @@
 //                                     3 default + init_if_needed + copy + get_promise() on the copy  4 set_value(v)
 //                                     5 ctor(fn -> async coroutine .start()): the coroutine produces the result
 //                                     6 default + init_if_needed, copies to polling/dropping users, THEN get_promise()
+//                                     7 ctor(fn -> future<T&>) resolved through promise<T&> (state refers to a foreign object)
 //      [1 kind d] resolver            0 value d  1 exception d  2 drop
 //      [2 cp kind] user               cp: 0 use the handle as received  1 copy-construct and drop the original
 //                                         2 copy-assign onto a live handle (old state released), drop the original
@@ -54,6 +55,11 @@ struct traits<counted> {
     static long get(counted &x) { return x.v; }
     static shared_future<counted> pre(long v) { return shared_future<counted>::set_value(v); }
     static counted make(long v) { return counted(v); }
+    static counted &refcell(long v) {
+        counted &c = g_refcells[g_refnext++ % 64];
+        c.v = v;
+        return c;
+    }
 };
 template <>
 struct traits<void> {
@@ -67,6 +73,12 @@ struct traits<std::unique_ptr<counted>> {
     static long get(U &x) { return x ? x->v : -12345; }
     static shared_future<U> pre(long v) { return shared_future<U>::set_value(std::make_unique<counted>(v)); }
     static U make(long v) { return std::make_unique<counted>(v); }
+    static inline U cells[16];
+    static U &refcell(long v) {
+        U &c = cells[g_refnext++ % 16];
+        c->v = v;
+        return c;
+    }
 };
 template <>
 struct traits<counted &> {
@@ -85,6 +97,9 @@ struct Seen {
     long done = 0, kind = 9, datum = 0, runs = 0;
 };
 
+// mode 7: the object the shared state refers to (set by the resolver before it resolves)
+static std::atomic<const void *> g_ref_target{nullptr};
+
 template <typename T>
 static void read_into(shared_future<T> &h, Seen &s) {
     try {
@@ -96,6 +111,9 @@ static void read_into(shared_future<T> &h, Seen &s) {
             s.datum = traits<T>::get(h.value());
             // the value can be read any number of times: a second read must give the same complete value
             if (traits<T>::get(h.value()) != s.datum) s.datum = -888;
+            // a state that refers to somebody else's object must deliver that very object
+            const void *tg = g_ref_target.load();
+            if (tg && static_cast<const void *>(&h.value()) != tg) s.datum = -999;
         }
         s.kind = 1;
     } catch (const await_canceled_exception &) {
@@ -197,7 +215,7 @@ static void run_case(const vh::Case &cs) {
     std::vector<long> sched;
     for (auto &op : cs.ops) {
         if (op.empty()) continue;
-        if (op[0] == 0 && op.size() == 3 && op[1] >= 0 && op[1] <= 6) {
+        if (op[0] == 0 && op.size() == 3 && op[1] >= 0 && op[1] <= 7) {
             if (!have_mode) { mode = op[1]; mval = op[2]; have_mode = true; }
         } else if (op[0] == 1 && op.size() == 3 && op[1] >= 0 && op[1] <= 2) {
             if (!have_res) { rkind = op[1]; rdatum = op[2]; have_res = true; }
@@ -212,6 +230,12 @@ static void run_case(const vh::Case &cs) {
     {
         std::optional<SF> sf, sf2;
         std::optional<Holder<T>> prom;
+        // mode 7: shared_future<T> built from a function returning future<T&>, resolved through promise<T&>
+        constexpr bool plain = !std::is_void_v<T> && !std::is_reference_v<T>;
+        using PT = std::conditional_t<plain, T, int>;
+        std::optional<promise<PT &>> rprom;
+        if (mode == 7 && !plain) mode = 1;
+        g_ref_target = nullptr;
         future<void> gate;
         std::optional<promise<void>> gprom;
         std::atomic<bool> pavail{false};
@@ -259,6 +283,16 @@ static void run_case(const vh::Case &cs) {
                 case 5:
                     sf.emplace([&] { return producer<T>(gate, &pavail, rkind, rdatum).start(); });
                     break;
+                case 7:
+                    if constexpr (plain) {
+                        sf.emplace([&] {
+                            return future<T &>([&](promise<T &> p) {
+                                rprom.emplace(std::move(p));
+                                pavail = true;
+                            });
+                        });
+                    }
+                    break;
                 case 6:
                     // late initialisation with copies handed out (to users that only poll or drop) before get_promise()
                     sf.emplace();
@@ -298,6 +332,19 @@ static void run_case(const vh::Case &cs) {
             bool r = false;
             if (mode == 5) {
                 r = (*gprom)();      // opens the gate: the producer coroutine finishes on this thread
+            } else if (mode == 7) {
+                if constexpr (plain) {
+                    switch (rkind) {
+                        case 0: {
+                            T &cell = traits<T>::refcell(rdatum);
+                            g_ref_target = &cell;
+                            r = (*rprom)(cell);
+                            break;
+                        }
+                        case 1: r = (*rprom)(std::make_exception_ptr(test_exc(rdatum))); break;
+                        case 2: r = (*rprom)(drop); break;
+                    }
+                }
             } else {
                 switch (rkind) {
                     case 0: r = traits<T>::set(prom->p, rdatum); break;
@@ -409,6 +456,7 @@ static void run_case(const vh::Case &cs) {
 
 int main(int argc, char **argv) {
     if (argc < 2) return 2;
+    for (auto &c : traits<std::unique_ptr<counted>>::cells) c = std::make_unique<counted>(0);
     int done = 0;
     for (auto &cs : vh::read_cases(argv[1])) {
         // the per-case leak check scans the whole (growing) heap: ask the driver for a fresh process now and then
